@@ -217,6 +217,21 @@ def run(ch: Checker) -> None:
             tg = st.targets[0] if isinstance(st, ast.Assign) else st.target
             if isinstance(tg, ast.Name) and tg.id == 'auth_plugins' and st.value is not None and isinstance(st.value, (ast.List, ast.Tuple)) and any(norm(x) == 'auth_plugin' for x in st.value.elts):
                 include_sites.append(st)
+    # nothing else may rebuild or filter the list once the auth plugin is in it
+    other_defs = []
+    for st in walk_no_nested(init.node):
+        if isinstance(st, (ast.Assign, ast.AnnAssign, ast.AugAssign)):
+            tg = st.targets[0] if isinstance(st, ast.Assign) else st.target
+            if isinstance(tg, ast.Name) and tg.id == 'auth_plugins' and st.value is not None and not any(st is x for x in include_sites):
+                v = st.value
+                if not (isinstance(v, (ast.List, ast.Tuple)) and not v.elts):
+                    other_defs.append(norm(st)[:80])
+        if isinstance(st, ast.Call) and isinstance(st.func, ast.Attribute) and isinstance(st.func.value, ast.Name) and st.func.value.id == 'auth_plugins' \
+                and st.func.attr in ('remove', 'pop', 'clear') :
+            other_defs.append(norm(st)[:80])
+    ch.check(not other_defs, 'C08.2', init, 'auth_plugins not rebuilt', 'auth_plugins is only ever [] / [auth_plugin] / append(auth_plugin)',
+             'auth_plugins is rebuilt or filtered after the auth plugin was put into it (%s): when the auth plugin drops out of this list its only remaining occurrence is wherever the user '
+             'listed it among --plugins, i.e. behind user plugins whose hooks then run on unauthenticated requests' % other_defs)
     inc = [holds_under_basic_auth(x) for x in include_sites]
     okc = bool(include_sites) and any(v is True for v in inc)
     ch.check(okc, 'C08.2', init, 'auth plugin included', 'the auth plugin is put into auth_plugins on a branch that is taken whenever basic_auth is set',
@@ -317,6 +332,7 @@ def run(ch: Checker) -> None:
     # ---------------- C08.5
     forward_sites_check(ch, 'C08.5', want_via=False)
     opaque_relay_check(ch, 'C08.6')
+    ch.import_rules('C09', {'C09.1': 'C08.7'}, 'the auth plugin is consulted before any user plugin only if the order in which plugins are listed survives loading')
 
 
 def _is_parts(e: ast.AST, req: str, m: Any, ce: ConstEval) -> bool:
